@@ -115,6 +115,7 @@ def _run_shard(binary, cases, env, timeout, announce):
     Returns dict cid -> list of output lines (a synthetic line marks abort/hang)."""
     res = {}
     i = 0
+    hangs = 0
     e = dict(os.environ)
     if env: e.update(env)
     if announce: e['TL_ANNOUNCE'] = '1'
@@ -151,6 +152,10 @@ def _run_shard(binary, cases, env, timeout, announce):
         tag = 'H' if hung else 'A %d' % rc
         if have <= idx:
             res.setdefault(cid, []).append('%s %d %s T ?' % (cid, idx, tag))
+        if hung:
+            hangs += 1
+            if hangs >= 2:
+                break           # a tree that hangs repeatedly is reported from the cases seen so far
         # restart after that case
         j = i
         while j < len(cases) and cases[j].cid != cid: j += 1
